@@ -89,6 +89,41 @@ example : prepOutput [33, 30, 31] [7, 5, 9] =
     idxOfPair (prepOutput [33, 30, 31] [7, 5, 9]) (33, 31) = .error .badPair ∧
     [33, 30, 31].Nodup := by decide
 
+/-- "reference markers … produced by the pipeline's own stages are accepted by the next stage
+and identify clusters … consistently by name": for a validated taxonomy (C10's `WF`) and the
+reference-marker file `_prep_output_file` wrote for it, the selection stage's
+`_get_taxonomy_idx(parent)` never raises — `idx_of_pair` knows every pair `leaves_to_compare`
+asks for — for EVERY parent key (where `children` would raise or there is no level below, the
+list of pairs is empty), and the columns it returns (sorted, no repetition, all `< n_pairs`, as
+many as there are pairs) are exactly the finder's rows `idx_to_pair[k]` of those pairs; distinct
+pairs of the parent get distinct columns (`IdxInjOn`, the hypothesis of the C12 bridge). -/
+theorem names_consistent_pairs_resolve (t : RawTree) (w : RawTree.WF t) (names : List Gene)
+    (parent : PKey) :
+    let r := prepOutput (leavesOf t) names
+    (∃ ks, taxonomyIdx r t parent = .ok ks ∧ ks.Nodup ∧ ks.Pairwise (· < ·) ∧
+      ks.length = (t.leafPairs parent).length ∧ (∀ k ∈ ks, k < r.nPairs) ∧
+      (∀ k, k ∈ ks ↔ ∃ x ∈ t.leafPairs parent, (idxToPair (leavesOf t))[k]? = some x)) ∧
+    (∀ x ∈ t.leafPairs parent, ∃ k, idxOfPair r x = .ok k ∧ (idxToPair (leavesOf t))[k]? = some x) ∧
+    Bridge.IdxInjOn (fun x => (idxOfPair r x).toOption.getD 0) (t.leafPairs parent) := by
+  intro r
+  obtain ⟨ks, h1, h2, h3, h4, _⟩ := taxonomyIdx_spec w names parent
+  refine ⟨⟨ks, h1, ?_, h2, h3, ?_, h4⟩, ?_, idxInjOn_prepOutput w names parent⟩
+  · exact h2.imp (fun h => Nat.ne_of_lt h)
+  · intro k hk
+    obtain ⟨x, _, hx⟩ := (h4 k).1 hk
+    exact (List.getElem?_eq_some_iff.1 hx).1
+  · rintro ⟨a, b⟩ hx
+    obtain ⟨ha, hb, hab⟩ := leafPairs_leaves w parent a b hx
+    obtain ⟨k, hk⟩ := idxOfPair_prepOutput_total _ names (leavesOf_nodup w) a b ha hb hab
+    exact ⟨k, hk, (idxOfPair_prepOutput _ names (leavesOf_nodup w) (a, b) k).1 hk⟩
+
+example : RawTree.WF exTr ∧ leavesOf exTr = [33, 30, 31] ∧
+    exTr.leafPairs none = [(31, 33), (30, 33)] ∧
+    taxonomyIdx (prepOutput (leavesOf exTr) [7, 5, 9]) exTr none = .ok [1, 2] ∧
+    taxonomyIdx (prepOutput (leavesOf exTr) [7, 5, 9]) exTr (some (0, 10)) = .ok [0] ∧
+    taxonomyIdx (prepOutput (leavesOf exTr) [7, 5, 9]) exTr (some (0, 11)) = .ok [] :=
+  ⟨exTr_wf, by decide, by decide, by decide, by decide, by decide⟩
+
 /-- "selected markers produced by the pipeline's own stages … identify clusters and genes
 consistently by name": the marker table written by the selection stage (one entry per parent
 the workers delivered, in delivery order `order`; `chosen p` = the positions selected for `p`)
